@@ -18,6 +18,8 @@ pub fn def() -> PropDef {
         needed_probes: &["c11_below_limit", "c11_above_limit", "c11_boundary", "c11_successor_after_abandon", "c11_fail_on_timeout", "c11_no_timeout_control"],
         quick_runs: 30_000,
         thorough_runs: 2_000_000,
+        block: 1,
+        flavours: &["tokio"],
     }
 }
 
